@@ -15,6 +15,7 @@
 package dmap
 
 import (
+	"fmt"
 	"strconv"
 
 	"github.com/olric-data/olric/internal/cluster/partitions"
@@ -52,6 +53,10 @@ func (dm *DMap) scanOnFragment(f *fragment, cursor uint64, sc *ScanConfig) ([]st
 }
 
 func (dm *DMap) Scan(partID, cursor uint64, sc *ScanConfig) ([]string, uint64, error) {
+	if partID >= dm.s.config.PartitionCount {
+		return nil, 0, fmt.Errorf("%w: invalid partition id: %d", protocol.ErrInvalidArgument, partID)
+	}
+
 	var part *partitions.Partition
 	if sc.Replica {
 		part = dm.s.backup.PartitionByID(partID)
